@@ -83,7 +83,8 @@ class _Canonical(ast.NodeTransformer):
     (j) `cast(T, e)` -> `e` (typing.cast is the identity at run time);
     (k) `obj.a = X if c else Y` with a call in an arm -> `if c: obj.a = X  else: obj.a = Y`;
     (l) `if a: if b: X` -> `if a and b: X`;
-    (m) `if a: r = X elif b: r = Y else: ...` followed by `return r` -> every arm returns what it assigned."""
+    (m) `if a: r = X elif b: r = Y else: ...` followed by `return r` -> every arm returns what it assigned;
+    (o) `(A if c else B).m(args)` as a statement -> `if c: A.m(args) else: B.m(args)`."""
 
     _OPS = (ast.Add, ast.Sub, ast.Mult, ast.BitOr, ast.BitAnd, ast.FloorDiv)
 
@@ -164,6 +165,25 @@ class _Canonical(ast.NodeTransformer):
             e.values = [self._nnf(v, boolctx) for v in e.values]
             return e
         return e
+
+    def visit_Expr(self, n: ast.Expr) -> Any:
+        self.generic_visit(n)
+        # (o) `(A if c else B).m(args)` as a statement (a receiver chosen by a conditional expression, typically through a
+        # local: `adds = A if c else B; adds.append(x)`) -> `if c: A.m(args) else: B.m(args)`
+        v = n.value
+        if isinstance(v, ast.Call) and isinstance(v.func, ast.Attribute) and isinstance(v.func.value, ast.IfExp):
+            import copy as _copy
+
+            ie = v.func.value
+            self.rewrites += 1
+
+            def call_on(recv: ast.expr) -> ast.stmt:
+                c = _copy.deepcopy(v)
+                c.func.value = recv  # type: ignore[attr-defined]
+                return ast.copy_location(ast.Expr(value=c), n)
+
+            return ast.copy_location(ast.If(test=ie.test, body=[call_on(ie.body)], orelse=[call_on(ie.orelse)]), n)
+        return n
 
     def visit_Call(self, n: ast.Call) -> Any:
         self.generic_visit(n)
